@@ -207,6 +207,7 @@ def defaults_unit(unit):
         else:
             out.keys.add(('default', st, nt, want))
         # bm=None too: must run (the library picks the Levy area its default solver needs)
+        out.count('executions')
         try:
             with warnings.catch_warnings():
                 warnings.simplefilter('ignore')
